@@ -255,8 +255,10 @@ Fixpoint hexdigits (n : nat) (cs : list N) (acc : N) : option (N * list N) :=
 (* consume_unicode_literal: `\` `u` 4 hex digits | `\` `U` 6 hex digits *)
 Definition unicode_literal (cs : list N) : option (N * list N) :=
   match cs with
-  | 92%N :: 117%N :: r => hexdigits 4 r 0
-  | 92%N :: 85%N :: r => hexdigits 6 r 0
+  | b :: e :: r =>
+    if (b =? 92)%N then
+      if (e =? 117)%N then hexdigits 4 r 0 else if (e =? 85)%N then hexdigits 6 r 0 else None
+    else None
   | _ => None
   end.
 
@@ -311,29 +313,41 @@ Definition unicode_char (mask4 : N) (v : N) (rest : list N) : option (N * list N
 
 Definition vertical_space (c : N) : bool := (10 <=? c)%N && (c <=? 13)%N.
 
-(* the body of consume_string after the opening quote: decoded characters and the input after the closing quote *)
+(* the character an escape letter stands for (apostrophe, quote, backslash, n, r, t) *)
+Definition short_unescape (e : N) : option N :=
+  if (e =? 39)%N then Some 39%N else if (e =? 34)%N then Some 34%N else if (e =? 92)%N then Some 92%N
+  else if (e =? 110)%N then Some 10%N else if (e =? 114)%N then Some 13%N else if (e =? 116)%N then Some 9%N else None.
+
+(* the body of consume_string after the opening quote: decoded characters and the input after the closing quote;
+   one turn of the loop per decoded character *)
 Fixpoint unescape_go (mask4 : N) (fuel : nat) (cs : list N) (acc : list N) : option (list N * list N) :=
   match fuel with
   | O => None
   | S f =>
     match cs with
-    | 92%N :: 39%N :: r => unescape_go mask4 f r (39%N :: acc)
-    | 92%N :: 34%N :: r => unescape_go mask4 f r (34%N :: acc)
-    | 92%N :: 92%N :: r => unescape_go mask4 f r (92%N :: acc)
-    | 92%N :: 110%N :: r => unescape_go mask4 f r (10%N :: acc)
-    | 92%N :: 114%N :: r => unescape_go mask4 f r (13%N :: acc)
-    | 92%N :: 116%N :: r => unescape_go mask4 f r (9%N :: acc)
-    | 92%N :: 117%N :: _ | 92%N :: 85%N :: _ =>
-      match unicode_literal cs with
-      | Some (v, r) => match unicode_char mask4 v r with
-                       | Some (c, r') => unescape_go mask4 f r' (c :: acc)
-                       | None => None
-                       end
-      | None => None
-      end
-    | 34%N :: r => Some (rev acc, r)
-    | c :: r => if vertical_space c then None else unescape_go mask4 f r (c :: acc)
     | [] => None
+    | c :: r =>
+      if (c =? 92)%N then
+        match r with
+        | e :: r' =>
+          match short_unescape e with
+          | Some d => unescape_go mask4 f r' (d :: acc)
+          | None =>
+            if (e =? 117)%N || (e =? 85)%N then
+              match unicode_literal cs with
+              | Some (v, r1) => match unicode_char mask4 v r1 with
+                                | Some (x, r2) => unescape_go mask4 f r2 (x :: acc)
+                                | None => None
+                                end
+              | None => None
+              end
+            else unescape_go mask4 f r (92%N :: acc)       (* an unknown escape keeps its backslash *)
+          end
+        | [] => unescape_go mask4 f r (92%N :: acc)
+        end
+      else if (c =? 34)%N then Some (rev acc, r)
+      else if vertical_space c then None
+      else unescape_go mask4 f r (c :: acc)
     end
   end.
 
